@@ -11,6 +11,9 @@ def dispatch (line : String) : String :=
     match tag with
     | "c14" => c14 args
     | "conn" => connWith noWrap args
+    | "raw" => rawWith noWrap args
+    | "clean" => cleanOp args
+    | "real" => realOp args
     | _ => "bad-op"
 
 partial def loop (h : IO.FS.Stream) (out : IO.FS.Stream) : IO Unit := do
